@@ -115,6 +115,19 @@ def make_api(r, shape):
         other = api.zoo(api.dep, "Shared")
     elif shape == "sub":
         other = api.zoo(api.sub, "Shared")
+    # primitive fields NAMED like the proto modules the client imports (the request's own file, another file of the API): as
+    # flattened parameters they would shadow the module inside the method unless the import takes an alias
+    own_mod = api.main.proto.name.rsplit("/", 1)[-1][:-len(".proto")]
+    for mr in main_req:
+        if r.random() < 0.7:
+            mr.field(own_mod, 91, r.choice(["string", "int32", "bool", "bytes"]), repeated=r.random() < 0.3)
+    if other is not None:
+        far_mod = other.file.proto.name.rsplit("/", 1)[-1][:-len(".proto")]
+        if r.random() < 0.7:
+            other.field(far_mod, 91, r.choice(["string", "int64"]), repeated=r.random() < 0.3)
+        for mr in main_req:
+            if r.random() < 0.5:
+                mr.field(far_mod, 92, "string")
     if other is not None:
         # requests of the API's package that reach into a message of the other package (plain protobuf dependency / proto-plus
         # sub-package): dotted signatures whose leaf, reserved words included, is owned by another package
@@ -141,6 +154,26 @@ def make_api(r, shape):
 
 def witness_api(kind):
     """Deterministic single-method APIs, one per candidate defect (the witnesses of the _refuted lemmas)."""
+    if kind in ("module_named_param", "module_named_param_sub"):
+        # a primitive flattened field named like a proto module of the API: the request's own file (library.proto -> library,
+        # shared.proto -> shared) and another imported one
+        sub = kind.endswith("_sub")
+        deps = list(apigen.STD_DEPS) + (["google/example/library/v1/shared/shared.proto"] if sub else [])
+        main = apigen.File("google/example/library/v1/library.proto", "google.example.library.v1", deps=deps)
+        files, togen = [], []
+        home = main
+        if sub:
+            home = apigen.File("google/example/library/v1/shared/shared.proto", "google.example.library.v1.shared")
+            files.append(home)
+            togen.append(home.proto.name)
+        rq = home.message("QueryRequest")
+        rq.field("name", 1, "string").field("shared" if sub else "library", 2, "string").field("library" if sub else "count", 3, "int32")
+        rq.field("tags", 4, "string", repeated=True)
+        resp = main.message("Reply")
+        resp.field("note", 1, "string")
+        svc = main.service("Library", host="library.example.com")
+        svc.rpc("GetBook", rq.fqn, resp.fqn, sigs=["name," + ("shared,library" if sub else "library"), "tags"])
+        return apigen.request(files + [main], to_generate=togen + [main.proto.name], parameter="transport=grpc")
     cross = kind in ("cross_two_repeated", "cross_dotted", "reserved_in_pb2", "keyword_param_pb2")
     far = {"pb2_reserved_leaf": "acme/common/v1/common.proto", "sub_reserved_leaf": "google/example/library/v1/shared/shared.proto",
            "pb2_nonprimitive_leaf": "acme/common/v1/common.proto"}.get(kind)
@@ -203,7 +236,7 @@ def witness_api(kind):
 # corpus/C05/<kind>.json holds each of these (written by write_corpus); the first four are the witnesses of defects that were
 # repaired in /repo (353b7c7, 14fc9e4, d43e852, 318bb4b): they stay so that a regression is reported
 WITNESSES = ["cross_two_repeated", "cross_dotted", "reserved_in_pb2", "reserved_segment", "presence", "pb2_reserved_leaf",
-             "sub_reserved_leaf", "control_name", "duplicate_param", "empty_container_dotted", "falsy_request", "keyword_param_pb2"]
+             "sub_reserved_leaf", "module_named_param", "module_named_param_sub", "control_name", "duplicate_param", "empty_container_dotted", "falsy_request", "keyword_param_pb2"]
 # a witness whose class is not yet in findings/known_findings.json is reported in scratch/findings and joins the run once it is
 PENDING = {"pb2_nonprimitive_leaf": "flatten.nonprimitive_leaf_in_pb2_submessage"}
 CORPUS = os.path.join(env.VERIF, "corpus", "C05")
@@ -494,6 +527,7 @@ class ApiRun:
         self.reserved = set(flatgen.reserved_names())
         self.facts, self.gen_result = facts, gen_result
         self.defs, self.checks = [], []
+        self.module_names = {fp.name.rsplit("/", 1)[-1][:-len(".proto")] for fp in req.proto_file if self.idx.proto_plus_pkg(fp.package)}
         self.stag = re.sub(r"\W", "_", tag)
         self.sch_name = "sch_" + self.stag
 
@@ -758,6 +792,8 @@ class ApiRun:
                 ctx.case({"api": self.h, "method": m.name, "variant": variant, "subset": case["subset"], "expected": case["expected_request_b64"]},
                          nontrivial=bool(keys),
                          feature=[f"params={min(len(keys), 5)}", f"subset={len(sub_)}", variant, "cross-package" if cross else "same-package"]
+                         + (["primitive-param-named-like-a-proto-module"] if any(
+                             params[i] in self.module_names and exp[i][2].type not in (F.TYPE_MESSAGE, F.TYPE_ENUM) for i in sub_) else [])
                          + (["reserved-intermediate-segment"] if any(x in self.reserved for i in sub_ for x in keys[i].split(".")[:-1]) else [])
                          + (["reserved-leaf-owned-by-another-package"] if any(
                              exp[i][0].count(".") and exp[i][2].name in self.reserved and self.owner_pkg(rq, exp[i][0]) != self.idx.package_of(rq)
